@@ -151,6 +151,36 @@ def prop(line, impl, model):
     return w[3] if w else None
 
 
+def model_marker(model):
+    """a marker of the MODEL adapter (coq/Run/ProxySessionRun.v): !skipped:<result> = it stepped over a handler's
+    channel receive that was not enabled, !stuck = another step of the op was not enabled. Neither is an answer of the
+    machine: the repaired machine (seq / start) never produces one on a generated case."""
+    for i, t in enumerate(model.split(",")):
+        if t.startswith("!"):
+            return i, t.split(":")[0]
+    return None
+
+
+def guarded_prop(ctx):
+    """prop, plus: a marker in the model's answer is an error of the harness (adapter or generator), reported as
+    not-shown - never as a violation of the property, and never silently compared"""
+    seen = [0]
+
+    def p(line, impl, model):
+        mk = model_marker(model)
+        if mk:
+            seen[0] += 1
+            if seen[0] <= 5:
+                ctx.not_shown("harness error (not a property violation): the model adapter coq/Run/ProxySessionRun.v answered op %d of `%s` "
+                              "with the marker %s (%s): the model's answer for this case is not a run of the machine, so the case was not "
+                              "compared; fix the adapter or the case generator. model=%s" % (
+                                  mk[0], line[:300], mk[1],
+                                  "it passed over a blocked channel receive of a handler" if mk[1] == "!skipped" else "a step of the op was not enabled",
+                                  model[:300]))
+        return prop(line, impl, model)
+    return p
+
+
 def key_of(line, impl, model):
     w = walk(line, impl)
     if not w:
@@ -340,7 +370,7 @@ def run(ctx):
     procs = start_slow(exe, slow)
     try:
         lines, kinds = gen(ctx)
-        ctx.correspond(exe, lines, kinds, label="proxy-session", prop=prop, key_of=key_of, impl_args=DRIVER_ARGS)
+        ctx.correspond(exe, lines, kinds, label="proxy-session", prop=guarded_prop(ctx), key_of=key_of, impl_args=DRIVER_ARGS)
         outs = collect_slow(procs)
     finally:
         for p in procs:
@@ -350,7 +380,7 @@ def run(ctx):
         f.write("\n".join(outs) + "\n")
     try:
         ctx.correspond("/bin/cat", [l for l, _ in slow], [k for _, k in slow], label="proxy-session-timers",
-                       prop=prop, key_of=key_of, impl_args=(f.name,), crosscheck=10)
+                       prop=guarded_prop(ctx), key_of=key_of, impl_args=(f.name,), crosscheck=10)
     finally:
         os.unlink(f.name)
 
